@@ -73,6 +73,25 @@ def check_valid(case, ctx):
     compare_composition(ctx, sub.composition, exp, "Substance.from_formula", txt, exact=not s["decimal"])
     if sub.charge != G.charge_value(case):
         ctx.fail("charge_property", text=txt, got=sub.charge, expected=G.charge_value(case))
+    # history on the same string: whatever a caller does with an earlier result, a later parse must again return
+    # exactly the written composition (no state may leak between calls or between Substance instances)
+    got[0] = 17
+    got[999] = 1
+    for k in [k for k in got if k not in (0, 999)][:1]:
+        got[k] = got[k] + 5
+    sub.composition[0] = -9
+    again = sut(f2c, txt)
+    if is_err(again):
+        ctx.fail("valid_formula_rejected:second_parse", text=txt, error=repr(again))
+        return
+    compare_composition(ctx, again, exp, "formula_to_composition:after_earlier_result_was_modified", txt, exact=not s["decimal"])
+    if again is got:
+        ctx.fail("same_mapping_object_returned_twice", text=txt)
+    sub2 = sut(Substance.from_formula, txt)
+    if not is_err(sub2):
+        compare_composition(ctx, sub2.composition, exp, "Substance.from_formula:after_earlier_result_was_modified", txt,
+                            exact=not s["decimal"])
+        ctx.label("reparsed")
 
 
 def check_text(case, ctx):
